@@ -5,7 +5,11 @@ stub with a scripted behaviour (pass / reject / raise ...). Signals are fresh un
 "the checkpoint passed exactly the signal that was processed" is an identity fact in the log. After
 each `Cascade.run` the invocation log and the returned `CascadeResult` are judged against the
 fail-closed rules of the statement (gate rule, halting rule, success/composition rule, no output on
-failure, clamped amplification). The `MAPKCascade` preset is monitored by wrapping its own lambdas
+failure, clamped amplification). Per-stage status labels in `stage_results` are outside the statement:
+mismatches with the log are counted (`unjudged_*`), never judged. Once a gate-rule violation is seen in a
+run, the result checks derived from it are skipped for that run, so one defect keeps one mechanism key.
+Mechanism keys carry the input class (`:halt-on` / `:halt-off`, or the state of the offending stage).
+The `MAPKCascade` preset is monitored by wrapping its own lambdas
 with the same loggers.
 
 Case layout (a case = a block of pipelines, pure function of (seed, n)):
